@@ -629,6 +629,17 @@ void prop(const Case& cs) {
       case fam::F_BLOOM: chk_bloom(c, static_cast<fam::BloomObj&>(*obj)); break;
       default: chk_dens(c, static_cast<fam::DensObj&>(*obj)); break;
     }
+    // the library's own readers on the image the independent reader has just accounted for: both decode it to the content the API reported
+    // (states an open finding is about are left to C09, where the finding is keyed)
+    if (obj->finding_key().empty()) {
+      const std::string want = obj->observe();
+      fam::P r1 = obj->from_bytes(img.data(), img.size());
+      std::istringstream is(std::string(img.begin(), img.end()), std::ios::binary);
+      fam::P r2 = obj->from_stream(is);
+      const std::string o1 = r1->observe(), o2 = r2->observe();
+      VF_CHECK(o1 == want, "library-reader-bytes", WHO << "deserialize(bytes) of the image decodes to another sketch:\n  " << o1.substr(0, 500) << "\n  expected " << want.substr(0, 500));
+      VF_CHECK(o2 == want, "library-reader-stream", WHO << "deserialize(stream) of the image decodes to another sketch:\n  " << o2.substr(0, 500) << "\n  expected " << want.substr(0, 500));
+    }
     vf::count("images"); vf::count("image-bytes", img.size());
     if (vf::stats().case_labels.count(std::string("state:") + fn + "/empty") == 0) any_nonempty = true;
   }
@@ -650,7 +661,7 @@ rc::Gen<Case> gen() {
                           [](std::tuple<Op, std::vector<Op>> t) { std::vector<Op> v; v.push_back(std::get<0>(t)); for (auto& o : std::get<1>(t)) v.push_back(o); return v; });
   long only = env_long("C10_FAM", -1);  // development aid (mutant runs): restrict the family
   return make_case({{"fam", only >= 0 ? range(only, only) : range(0, fam::NFAM - 1)}, {"a", range(0, 1 << 16)}, {"b", range(0, 1 << 16)}, {"c", range(0, 1 << 16)},
-                    {"seed", rc::gen::weightedOneOf<int64_t>({{3, rc::gen::just<int64_t>(0)}, {1, range(1, 1000)}})}, {"rnd", range(1, 1 << 20)}, {"pre", range(0, 3)}, {"t", range(0, 1)}, {"ls", range(0, 1)}},
+                    {"seed", rc::gen::weightedOneOf<int64_t>({{3, rc::gen::just<int64_t>(0)}, {1, range(1, 1000)}})}, {"rnd", range(1, 1 << 20)}, {"pre", range(0, 3)}, {"t", range(0, 1)}, {"ls", range(0, 1)}, {"bs", range(0, 1)}, {"hp", rc::gen::weightedOneOf<int64_t>({{2, rc::gen::just<int64_t>(0)}, {1, range(1, 7)}})}},
                    ops);
 }
 
